@@ -485,11 +485,14 @@ def h_net_sample(w, st, rec):
     log0 = len(peer().log)
     npre = digest(n)
     seed = G.seed_object(w, rec.get("seed"))
+
+    def mkseed():        # (a Generator given as seed is made afresh for every call)
+        return G.seed_object(w, rec.get("seed"))
     if rec.get("posseed"):
         w.probes["seed_passed_positionally"] += 1
-        out = w.call(lambda: obj.sample(n, seed), arm=rec.get("arm"))
+        out = w.call(lambda: obj.sample(n, mkseed()), arm=rec.get("arm"))
     else:
-        out = w.call(lambda: obj.sample(n, random_state=seed), arm=rec.get("arm"))
+        out = w.call(lambda: obj.sample(n, random_state=mkseed()), arm=rec.get("arm"))
     alloc_calls = w.last_seam_calls.get("pd.DataFrame", 0)
     np_calls = w.last_seam_calls.get("np.*", 0)
     if rec.get("arm") is not None and rec["arm"][0] == "np.*" and out[0] == "exc" and "injected by simulator" in str(out[1]):
@@ -582,7 +585,7 @@ def h_net_sample(w, st, rec):
         # a long session in one step: the same sample call many times in a row
         for b in range(int(rec["burst"]) - 1):
             l0 = len(peer().log)
-            ob = w.call(lambda: obj.sample(n, random_state=seed))
+            ob = w.call(lambda: obj.sample(n, random_state=mkseed()))
             if ob[0] != "ok":
                 w.violate("exception_contract", site + ":valid_arguments",
                           {"raised": type(ob[1]).__name__, "how": "repetition %d of a burst" % (b + 2)})
@@ -607,7 +610,7 @@ def h_net_sample(w, st, rec):
             peer().arm("predict", k)
             f0 = peer().fired
             l0 = len(peer().log)
-            o2 = w.call(lambda: obj.sample(n, random_state=seed))
+            o2 = w.call(lambda: obj.sample(n, random_state=mkseed()))
             peer().disarm()
             w.probes["sweep.peer_fault_positions"] += 1
             if peer().fired > f0:
@@ -619,7 +622,7 @@ def h_net_sample(w, st, rec):
         # ... and over the data-frame constructions of this call (failing allocations)
         for k in range(1, min(alloc_calls, 10) + 1):
             l0 = len(peer().log)
-            o2 = w.call(lambda: obj.sample(n, random_state=seed), arm=["pd.DataFrame", k, "MemoryError"])
+            o2 = w.call(lambda: obj.sample(n, random_state=mkseed()), arm=["pd.DataFrame", k, "MemoryError"])
             w.probes["sweep.alloc_fault_positions"] += 1
             if o2[0] == "exc" and isinstance(o2[1], MemoryError):
                 w.faults["alloc.fail"] += 1
@@ -631,7 +634,7 @@ def h_net_sample(w, st, rec):
         pos = list(range(1, npcalls + 1)) if npcalls <= 8 else sorted({1 + (i * (npcalls - 1)) // 7 for i in range(8)})
         for k in pos:
             l0 = len(peer().log)
-            o2 = w.call(lambda: obj.sample(n, random_state=seed),
+            o2 = w.call(lambda: obj.sample(n, random_state=mkseed()),
                         arm=["np.*", k, "MemoryError" if k % 2 else "KeyboardInterrupt"])
             w.probes["sweep.np_star_positions"] += 1
             if o2[0] == "exc" and "injected by simulator" in str(o2[1]):
@@ -640,7 +643,7 @@ def h_net_sample(w, st, rec):
                 for cls, s2, detail in check_sample(w, st, rec["net"], net, dict(rec, n=n), o2[1], peer().log[l0:]):
                     w.violate("wrong_data_after_peer_fault", s2, dict(detail, underlying=cls, failed_numpy_call=k))
         if (M or alloc_calls or npcalls) and rec.get("seed") is not None:
-            o3 = w.call(lambda: obj.sample(n, random_state=seed))
+            o3 = w.call(lambda: obj.sample(n, random_state=mkseed()))
             if o3[0] != "ok" or digest(o3[1]) != digest(S):
                 w.violate("seeded_sample_differs", site, {"what": "network not as usable as before after peer failures",
                                                           "seed": rec["seed"]})
@@ -714,6 +717,7 @@ def execute(sempler, run_seed, ops, pristine_budget=2):
     peer().reset({})
     for i, rec in enumerate(ops):
         w.step = i
+        w.client = rec.get("c", 0)
         op = rec["op"]
         w.pre_rng = w.rng_digest()
         try:
@@ -733,7 +737,7 @@ def execute(sempler, run_seed, ops, pristine_budget=2):
             for f in st.first.values():
                 if f["step"] != i:
                     f["between"].add(tag)
-                    if op == "np.perturb" and rec.get("kind") == "reseed":
+                    if op == "np.perturb" and rec.get("kind") in ("reseed", "bitgen"):
                         f["between"].add("rng.reseed")
         if op == "net.sample" and rec["net"] in st.nets:
             net = st.nets[rec["net"]]
@@ -753,7 +757,7 @@ def execute(sempler, run_seed, ops, pristine_budget=2):
 
 def pristine_eval(sempler, ops):
     import sempler.semi as semi
-    w = World(sempler, 0, PROP)
+    w = World(sempler, 0, PROP, reference=True)
     st = State()
     semi.time = FakeTime()
     peer().reset({})
@@ -980,6 +984,8 @@ def generate(run_seed, deep=False):
                 ops.append({"c": c, "op": "py.import", "module": g.choice(IMPORTABLE)})
             else:
                 ops.append({"c": c, "op": "gc"})
+    G.bitgen_variation(st["bitgen"], ops)
+    G.generator_seed_variation(st["genseed"], ops, lambda r: r.get("op") == "net.sample" and not r.get("invalid"))
     np_star_faults(st["np_star"], ops)
     return cfg, ops
 
